@@ -92,6 +92,7 @@ class Inp:
     """Model-side description of one input."""
 
     def __init__(self, spec, n):
+        self.spec = dict(spec)
         self.kind = spec["kind"]
         self.keys = spec["keys"]
         self.m = spec.get("m", 1)
@@ -422,6 +423,34 @@ class World:
             if new is not None:
                 w.items.append(new)
             inp.annex = new
+        elif k == "releaf":
+            # the spent taproot output is replaced by one committing to ANOTHER leaf (other keys / threshold / internal key) and the
+            # witness is re-dressed for that leaf, either by hand or through the library's initialize_p2tr_multisig helper, which
+            # also leaves a tap_script attribute on the input: later digests must be those of the leaf now in the witness
+            i = e["i"] % len(m["ins"])
+            old = self.inps[i]
+            if old.kind != "p2tr_script":
+                return None
+            spec = dict(e["spec"], kind="p2tr_script", amount=old.amount, annex=old.annex.hex() if old.annex is not None else None)
+            new = Inp(spec, i)
+            if e.get("spk_override"):
+                new.spk = bytes.fromhex(e["spk_override"])
+            inv = {"e": "releaf", "i": i, "spec": old.spec, "spk_override": old.spk.hex()}
+            self.inps[i] = new
+            ti = tx.tx_ins[i]
+            ti._script_pubkey = lib_script(new.spk, ScriptPubKey)
+            if e.get("via_init") and len(new.keys) > 1:
+                points = [S256Point.parse_xonly(secp.xonly(pub(x))) for x in new.keys]
+                ti.witness = Witness()
+                tx.initialize_p2tr_multisig(i, ControlBlock.parse(new.control), MultiSigTapScript(points, new.m))
+                # placeholders where finalize_p2tr_multisig will put the signatures (keeps item 0 a signature slot for 'witness_item')
+                ti.witness.items[0:0] = [DUMMY_SCHNORR] * len(new.keys)
+                self.tr.probe("releaf_via_initialize")
+            else:
+                ti.witness = Witness([DUMMY_SCHNORR] * len(new.keys) + [new.leaf_script, new.control])
+                self.tr.probe("releaf_by_hand")
+            if new.annex is not None:
+                ti.witness.items.append(new.annex)
         elif k == "witness_item":
             # an uncommitted witness/scriptSig change: replace the first placeholder/signature element of a *witness* by other bytes
             i = e["i"] % len(m["ins"])
@@ -1136,7 +1165,7 @@ def gen_input(ch, kinds=None):
     return spec
 
 
-EDITS = ["out_amount", "out_script", "out_append", "out_remove", "in_sequence", "in_outpoint", "in_append", "in_remove", "locktime", "version", "spent_amount", "spent_script", "annex", "witness_item"]
+EDITS = ["out_amount", "out_script", "out_append", "out_remove", "in_sequence", "in_outpoint", "in_append", "in_remove", "locktime", "version", "spent_amount", "spent_script", "annex", "witness_item", "releaf", "releaf"]
 
 
 def gen_edit(ch, kinds=None):
@@ -1165,6 +1194,15 @@ def gen_edit(ch, kinds=None):
         st["annex"] = (b"\x50" + ch.bytes(ch.randrange(0, 20))).hex() if ch.chance(0.6) else None
     if e == "witness_item":
         st["data"] = ch.bytes(ch.choice([0, 1, 64, 65, 71, 72])).hex()
+    if e == "releaf":
+        sp = gen_input(ch, ["p2tr_script"])
+        if ch.chance(0.6) and len(sp["keys"]) < 2:
+            sp["keys"] = ch.sample(range(8), 2)
+            sp["m"] = ch.randrange(1, 3)
+        st["spec"] = {"keys": sp["keys"], "m": sp["m"], "internal": sp["internal"]}
+        st["via_init"] = ch.chance(0.6)
+        if ch.chance(0.5):
+            st["i"] = 0
     return st
 
 
@@ -1277,6 +1315,20 @@ def enumerate_c05(tier, seed):
             other = {"kind": "p2wpkh", "txid": "%064x" % r.getrandbits(256), "vout": 0, "sequence": 0xFFFFFFFF, "amount": 5000, "keys": [r.randrange(8)]}
             yield {"version": 2, "locktime": 0, "inputs": [spec, other], "outputs": [{"amount": 90000, "spk": tm.spk_p2wpkh(bytes(20)).hex()}, {"amount": 5000, "spk": tm.spk_p2pkh(bytes(20)).hex()}],
                    "steps": [{"op": "refsign", "i": 0, "hts": hts, "pick": r.randrange(1000)}], "enum": "refsign"}
+    # leaf replacement histories on a taproot script-path input: every order of (helper / by hand) x hash type, query after each
+    for a_init in (True, False):
+        for b_init in (True, False):
+            for ht in (0, 1, 3, 0x81, 0x83):
+                for annex in (None, "5001"):
+                    spec = {"kind": "p2tr_script", "txid": "%064x" % r.getrandbits(256), "vout": 1, "sequence": 0xFFFFFFFE, "amount": 70000, "keys": r.sample(range(8), 2), "m": 2, "internal": r.randrange(8)}
+                    if annex:
+                        spec["annex"] = annex
+                    la = {"keys": r.sample(range(8), 2), "m": 1, "internal": r.randrange(8)}
+                    lb = {"keys": r.sample(range(8), 3), "m": 2, "internal": r.randrange(8)}
+                    q = {"op": "query", "i": 0, "ht": ht, "via": "direct"}
+                    yield {"version": 2, "locktime": 0, "inputs": [spec], "outputs": [{"amount": 60000, "spk": tm.spk_p2wpkh(bytes(20)).hex()}],
+                           "steps": [q, {"op": "edit", "e": "releaf", "i": 0, "j": 0, "spec": la, "via_init": a_init}, q, {"op": "edit", "e": "releaf", "i": 0, "j": 0, "spec": lb, "via_init": b_init}, q,
+                                     dict(q, via="dispatch"), {"op": "revert"}, q], "enum": "releaf"}
 
 
 def enumerate_plans(tier, prop, seed):
